@@ -247,7 +247,10 @@ let inv file =
            let prog = List.map BZ.of_string (List.tl hd_toks) in
            let sched = ints_of sch in
            let want = List.map ints_of (split_on ";" obs) in
-           let got = rc_invcheck (List.map coq_of_z prog) (List.map coq_of_z sched) (List.map (List.map coq_of_z) want) in
+           let cp = List.map coq_of_z prog and cs = List.map coq_of_z sched and cw = List.map (List.map coq_of_z) want in
+           let got1 = rc_invcheck cp cs cw and got2 = rc_snapcheck cp cs cw in
+           (* first non-zero verdict of the two checkers per state *)
+           let got = List.map2 (fun a b -> match a with [x] when BZ.equal (z_of_coq x) BZ.zero -> b | _ -> a) got1 got2 in
            incr cases;
            List.iteri (fun i v ->
                incr states;
